@@ -100,8 +100,8 @@ func (s *c12Session) submit(kind string, name int) *c12Handle {
 		c := s.client.Login("u", "p")
 		wait = c.Wait
 	case "login-lit":
-		// the user name needs a synchronising literal, which the peer refuses
-		c := s.client.Login("a\nb", "p")
+		// both arguments need a synchronising literal; the peer refuses the first one or accepts both
+		c := s.client.Login("a\nb", "p\r\nq")
 		wait = c.Wait
 	case "select":
 		c := s.client.Select(mbox, nil)
@@ -596,6 +596,15 @@ func runC12(h *H) {
 					time.Sleep(2 * time.Millisecond)
 				}
 				nontrivial = true
+				if rng.Intn(2) == 0 {
+					// the refusal leaves the connection usable for the next command that needs
+					// continuation requests: the same LOGIN, both literals accepted, answered NO
+					hd2 := s.submit("login-lit", 0)
+					h.Hist("step:login-literals-accepted-after-refusal")
+					ev("EvSubmit KLogin")
+					s.waitReceived(len(s.handles))
+					respond(hd2, 1)
+				}
 			case r < 5 && oState == 1:
 				hd := s.submit("login", 0)
 				ev("EvSubmit KLogin")
